@@ -283,7 +283,65 @@ class StmtMixin(object):
         else:
             raise Unsupported('augmented assignment target')
 
+    def _simple_assign_block(self, body):
+        """[(name, value_node)] if the block consists only of assignments of call-free expressions to local names"""
+        out = []
+        for st in body:
+            if st.k == 'Assign' and len(st.targets) == 1 and st.targets[0].k == 'Name':
+                out.append((st.targets[0].id, st.value))
+            elif st.k == 'Pass':
+                continue
+            else:
+                return None
+            for n in walk(st.value):
+                if n.k in ('Call', 'Comp', 'Lambda', 'Index'):
+                    return None
+        return out
+
     def s_If(self, s):
+        # small conditional updates of numeric locals (e.g. `if dif < 0: dif = -dif`) are merged into ite terms instead of
+        # forking the path
+        if len(s.tests) == 1:
+            a = self._simple_assign_block(s.tests[0][1])
+            b = self._simple_assign_block(s.orelse)
+            if a and b is not None:
+                names = set(n for n, _ in a) | set(n for n, _ in b)
+                fr = self.frame
+                if all(n not in fr.globals_declared and isinstance(fr.env.get(n), T) for n in names):
+                    cv = self.truth(self.eval(s.tests[0][0]))
+                    if isinstance(cv, T) and not cv.is_const():
+                        saved = dict((n, fr.env[n]) for n in names)
+                        try:
+                            mark = len(self.pc)
+                            self.pc.append(cv)
+                            for n, vn in a:
+                                self.assign_name(n, self.eval(vn), s.line)
+                            self.close_guard(mark)
+                            then_vals = dict((n, fr.env[n]) for n in names)
+                            for n in names:
+                                fr.env[n] = saved[n]
+                            mark = len(self.pc)
+                            self.pc.append(tm.not_(cv))
+                            for n, vn in b:
+                                self.assign_name(n, self.eval(vn), s.line)
+                            self.close_guard(mark)
+                            else_vals = dict((n, fr.env[n]) for n in names)
+                            ok = all(isinstance(then_vals[n], T) and isinstance(else_vals[n], T) for n in names)
+                        except (Unsupported, RaiseSig):
+                            ok = False
+                        if ok:
+                            for n in names:
+                                fr.env[n] = tm.ite(cv, then_vals[n], else_vals[n])
+                            return
+                        for n in names:
+                            fr.env[n] = saved[n]
+                    else:
+                        # concrete condition: fall through to the ordinary execution (re-evaluating the test is harmless: call-free? no)
+                        if self.branch(cv):
+                            self.exec_block(s.tests[0][1])
+                        else:
+                            self.exec_block(s.orelse)
+                        return
         for (c, body) in s.tests:
             cv = self.truth(self.eval(c))
             if self.branch(cv):
